@@ -17,9 +17,11 @@ open NLE NLE.Vac
 /-- The constants of the mechanism as they stand in the source. -/
 theorem constants : Gen.checkInterval = 500000000 ∧ Gen.jitterMin = 10000000 ∧ Gen.jitterMax = 100000000 := by decide
 
-/-- The bound: one periodic-check interval (500 ms) + the maximum acquisition jitter (100 ms) + three operation latencies. -/
-theorem bound_documented (L : Nat) : bound (Par.ofLat L) = 500000000 + 100000000 + 3 * L := by
-  simp [bound, Par.ofLat, constants.1, constants.2.2]
+/-- The bound: one periodic-check interval (500 ms) + the maximum acquisition jitter (100 ms) + operation latencies:
+    four of them, six when the instance may also attempt takeovers (a running attempt is then up to three operations long). -/
+theorem bound_documented (L : Nat) : bound (Par.ofLat L false) = 500000000 + 100000000 + 4 * L ∧
+    bound (Par.ofLat L true) = 500000000 + 100000000 + 6 * L := by
+  simp [bound, Par.ofLat, constants.1, constants.2.2]; omega
 
 /-- Main theorem: in every execution of a healthy candidate — whatever the interleaving of its periodic checks, its
     acquisition rounds, other instances' writes, deletions and expiries, and with no watch notification at all — the key
@@ -45,7 +47,7 @@ theorem check_always_due (p : Par) (t0 : Nat) (vacant0 : Bool) (acts : List Act)
 /-- A check that reads no record is always followed by a Create within the maximum jitter: the obligation stays until
     a Create of the candidate discharges it, and the clock cannot pass its deadline. -/
 theorem miss_is_followed_by_create (p : Par) (t0 : Nat) (vacant0 : Bool) (acts : List Act) (s : St)
-    (h : run p (init t0 vacant0) acts = some s) (r : Nat) (hr : r ∈ s.owed) : s.now ≤ r + p.J :=
+    (h : run p (init t0 vacant0) acts = some s) (r : Nat) (hr : r ∈ s.owed) : s.now ≤ r + p.J + p.B :=
   ((run_inv (inv_init p t0 vacant0) acts h).owedLe r hr).2
 
 /-- Leaderless time after the owner crashes or is cut off at `x`: its record was last refreshed at `a ≤ x` and expires
@@ -54,22 +56,22 @@ theorem leaderless_bound (x a ttl e v fillAt claimAt B L : Nat) (ha : a ≤ x) (
     (hfill : fillAt ≤ v + B) (hclaim : claimAt ≤ fillAt + L) : claimAt ≤ x + ttl + B + L := by omega
 
 /-! Non-vacuity: a run that takes the whole bound (P = 500, J = 100, L = 10; times in ms for readability). -/
-def p0 : Par := { P := 500, Jmin := 10, J := 100, L := 10 }
+def p0 : Par := { P := 500, Jmin := 10, J := 100, L := 10, B := 10 }
 
 def worst : List Act := [
   .advance 1000, .checkCall, .checkApply, .vacate,           -- the check at 1000 still reads the record; it disappears right after
   .advance 1010, .checkRet false,
   .advance 1510, .checkCall, .advance 1520, .checkApply, .checkRet true,   -- next check: P + L later, applied late
-  .advance 1620, .createCall, .advance 1630 ]                -- maximum jitter, slow Create
+  .advance 1630, .createCall, .advance 1640 ]                -- maximum jitter, a running attempt in the way, slow Create
 
 example : (match run p0 (init 500 false) worst with
-    | some s => s.vacant == some 1000 && s.now == 1630 && decide (s.now = 1000 + bound p0) | none => false) = true := by decide
+    | some s => s.vacant == some 1000 && s.now == 1640 && decide (s.now = 1000 + bound p0) | none => false) = true := by decide
 
-example : (match run p0 (init 500 false) (worst ++ [.createApply 1620]) with
+example : (match run p0 (init 500 false) (worst ++ [.createApply 1630]) with
     | some s => s.vacant == none | none => false) = true := by decide
 
 /-- The clock cannot pass the deadline: the model refuses. -/
-example : run p0 (init 500 false) (worst ++ [.advance 1631]) = none := by decide
+example : run p0 (init 500 false) (worst ++ [.advance 1641]) = none := by decide
 
 /-- The acceptor rejects a follower that stops checking. -/
 def cfgA : InstCfg := { id := 1, key := "g", prio := 0, takeover := false, hb := 200000000, ttl := 600000000, val := 0, grace := 0, maxFail := 0, hasHealth := false, connMon := false, storeTTL := 600000000, callbacks := true }
